@@ -484,21 +484,32 @@ def lab_phase(ctx, progs, rows, rejected, nprog):
     import genlab
     import schema as schemalib
     rnd = random.Random(ctx.seed + 7)
-    cand = []
+    cand, candf = [], []
     for pi, p in enumerate(progs):
         if not gen_ok_for_lab(p):
             continue
         for ci, c in enumerate(p["cases"]):
             ar = c["ar"]
-            if not ar["pats"] and ar["preserve"] == "unset" and not ar["plist"] and not ar["nocomment"] and not ar.get("yaml"):
-                if (pi, ci, "inproc") not in rejected:
-                    cand.append((pi, ci))
+            if (pi, ci, "inproc") in rejected or ar.get("yaml"):
+                continue
+            if not ar["pats"] and ar["preserve"] == "unset" and not ar["plist"] and not ar["nocomment"]:
+                cand.append((pi, ci))
+            else:
+                candf.append((pi, ci))     # with arguments: trim_idl takes them from trim_config.yaml in the working directory
     strata = {}
     for pi, ci in cand:
         strata.setdefault((prog_class(progs[pi]), slot_sig(progs[pi])), []).append((pi, ci))
     keys = sorted(strata)
     rnd.shuffle(keys)
-    pick = [strata[k][0] for k in keys[:nprog]]
+    nplain = nprog - nprog // 3
+    pick = [strata[k][0] for k in keys[:nplain]]
+    strata = {}
+    for pi, ci in candf:
+        ar = progs[pi]["cases"][ci]["ar"]
+        strata.setdefault((progs[pi]["lay"], filter_kind(ar), pres_kind(ar)), []).append((pi, ci))
+    keys = sorted(strata)
+    rnd.shuffle(keys)
+    pick += [rnd.choice(strata[k]) for k in keys[:nprog - len(pick)]]
     if not pick:
         raise vlib.MachineryError("no program for the trim_idl lab")
     lab = genlab.Lab(ctx, "lab")
@@ -506,12 +517,9 @@ def lab_phase(ctx, progs, rows, rejected, nprog):
         prog, pres = cg.to_program(progs[pi]["G"])
         lab.add_case("u%d" % k, prog, [])
         lab.add_case("t%d" % k, prog, ["trim_idl"])
-    # genlab renders without comments: add the @preserve lines after rendering, before thriftgo runs
-    orig = lab._generate_one
 
-    def gen_one(c):
-        return orig(c)
-    # render ourselves (comments), then run thriftgo exactly as genlab does
+    # genlab renders without comments: write the texts ourselves (`// @preserve` lines, trim_config.yaml), then run
+    # thriftgo as genlab does, with the IDL directory as working directory (TrimAST reads its yaml from there)
     def generate_with_comments(c):
         k = int(c.id[1:])
         pi, ci = pick[k]
@@ -520,13 +528,18 @@ def lab_phase(ctx, progs, rows, rejected, nprog):
         for path, txt in progs[pi]["texts"].items():
             with open(os.path.join(idl_root, path), "w") as fh:
                 fh.write(txt)
+        ar = progs[pi]["cases"][ci]["ar"]
+        if c.id[0] == "t" and (ar["pats"] or ar["preserve"] != "unset" or ar["plist"] or ar["nocomment"]):
+            _, y = cg.harness_args(progs[pi]["G"], dict(ar, yaml=True))
+            with open(os.path.join(idl_root, "trim_config.yaml"), "w") as fh:
+                fh.write(y)
         out = os.path.join(lab.root, "g", c.id)
         os.makedirs(out, exist_ok=True)
         opts = ["package_prefix=labmod/g/%s" % c.id] + c.opts
-        cmd = [lab.thriftgo, "-g", "go:%s" % ",".join(opts), "-o", out, "-r", os.path.join("idl", c.id, "a.thrift")]
+        cmd = [lab.thriftgo, "-g", "go:%s" % ",".join(opts), "-o", out, "-r", "a.thrift"]
         c.cmd = cmd
-        pr = subprocess.run(cmd, cwd=lab.root, stdout=subprocess.PIPE, stderr=subprocess.PIPE, text=True,
-                            errors="replace", timeout=120, env=ctx.env)
+        pr = subprocess.run(cmd, cwd=idl_root, stdout=subprocess.PIPE, stderr=subprocess.PIPE, text=True,
+                            errors="replace", timeout=300, env=ctx.env)
         c.rc, c.stdout, c.stderr = pr.returncode, pr.stdout, pr.stderr
         for dp, _, fs in os.walk(out):
             for f in fs:
@@ -540,10 +553,10 @@ def lab_phase(ctx, progs, rows, rejected, nprog):
         p = progs[pi]
         if u.rc != 0:
             raise vlib.MachineryError("thriftgo rejects an untrimmed program of the universe: %s\n%s" % (u.stderr[-1500:], json.dumps(p["texts"])))
-        ctx.count(1, "trim_idl " + prog_class(p) + " " + slot_sig(p))
+        ctx.count(1, "trim_idl " + case_class(p, p["cases"][ci]))
         if t.rc != 0:
             ctx.violation({"check": "C16.trim_idl", "kind": "generation-failed", "lay": p["lay"]},
-                          {"files": p["texts"], "cmd": t.cmd[1:]}, (t.stdout + t.stderr)[-2000:], "exit 0",
+                          {"files": p["texts"], "cmd": t.cmd[1:], "ar": p["cases"][ci]["ar"]}, (t.stdout + t.stderr)[-2000:], "exit 0",
                           "thriftgo -g go:trim_idl fails on a program it accepts without trim_idl")
             continue
         # generated struct-likes = kept struct-likes of the validated in-process result
@@ -562,7 +575,7 @@ def lab_phase(ctx, progs, rows, rejected, nprog):
                         got.add((pkg, m.group(1)))
         if got != exp:
             ctx.violation({"check": "C16.trim_idl", "kind": "generated-types-differ", "lay": p["lay"]},
-                          {"files": p["texts"], "cmd": t.cmd[1:]}, sorted(got), sorted(exp),
+                          {"files": p["texts"], "cmd": t.cmd[1:], "ar": p["cases"][ci]["ar"]}, sorted(got), sorted(exp),
                           "types generated with trim_idl differ from the kept set of trim.TrimAST")
             continue
         usable.append(k)
@@ -585,7 +598,8 @@ def lab_phase(ctx, progs, rows, rejected, nprog):
                 continue
             pi, ci = pick[k]
             ctx.violation({"check": "C16.trim_idl", "kind": "does-not-compile", "lay": progs[pi]["lay"]},
-                          {"files": progs[pi]["texts"], "cmd": lab.cases[cid].cmd[1:]}, out[-3000:], "go build succeeds",
+                          {"files": progs[pi]["texts"], "cmd": lab.cases[cid].cmd[1:], "ar": progs[pi]["cases"][ci]["ar"]},
+                          out[-3000:], "go build succeeds",
                           "code generated with trim_idl does not compile")
         usable = [k for k in usable if ("t%d" % k) not in bad_t and k not in ubad]
     # wire behaviour of kept types: same write traces from the untrimmed and the trimmed package
@@ -692,14 +706,14 @@ def run(ctx, args):
     skip = os.environ.get("C16_SKIP", "").split(",")     # development only
     brow, bwhy, bouts = {}, {}, {}
     if "binary" not in skip:
-        brow, bwhy, bouts = binary_observe(ctx, harness, trimmer, progs, 6000 if thorough else 700)
+        brow, bwhy, bouts = binary_observe(ctx, harness, trimmer, progs, 6000 if thorough else 500)
     allrows = dict(rows)
     allrows.update(brow)
     rejected = validate(ctx, progs, allrows, "all")
     stale_b = inproc_judge(ctx, harness, progs, rows, whys, {k: v for k, v in rejected.items() if k[2] == "inproc"})
     binary_judge(ctx, progs, brow, bwhy, bouts, rows, {k: v for k, v in rejected.items() if k[2] == "binary"})
     if "lab" not in skip:
-        lab_phase(ctx, progs, rows, rejected, 150 if thorough else 24)
+        lab_phase(ctx, progs, rows, rejected, 120 if thorough else 16)
     if stale_b and not ctx.violations:
         # B-only counterexamples: B predicts a violation of A the real code does not show -> B is a wrong transcription
         pi, ci = stale_b[0]
